@@ -275,9 +275,12 @@ def case_root(ctx, rng, name, layout):
     ctx.close(res(got.value, dv, c), 0.0, mech + ':residual-not-zero-at-central-values', what, rtol=0, atol=1e-7 * abs(fx) * scale_x + 1e-13)
     # dense propagation with the analytic sensitivities
     ref, scale, snaps, rmeans = reference(d, s_exact, lambda v: inv(list(v), c))
-    ok = compare_obs(ctx, got, ref, mech, scale=scale, rtol=1e-6, vtol=1e-7, what=what, value_scale=scale_x)
-    if not ok:
-        diagnose_root(ctx, got, d, s_exact, inv, c, mech, what)
+    t = ctx.trial()
+    ok = compare_obs(t, got, ref, mech, scale=scale, rtol=1e-6, vtol=1e-7, what=what, value_scale=scale_x)
+    if not ok and diagnose_root(ctx, got, d, s_exact, inv, c, mech, what):
+        ctx.evaluations += t.evaluations          # the named cause replaces the field-by-field records
+    else:
+        ctx.absorb(t)
     # equal to the explicit inverse built with the overloads
     try:
         direct = explicit_inverse(name, c, d)
@@ -314,7 +317,8 @@ def diagnose_root(ctx, got, d, s_exact, inv, c, mech, what):
         compare_obs(t, got, ref, mech, scale=scale, rtol=1e-6, vtol=1e-7, what=what)
         if not t.violations:
             ctx.violation(mech + ':' + tag, {'what': what})
-            return
+            return True
+    return False
 
 
 # ------------------------------------------------------------------------------------------
@@ -363,7 +367,7 @@ def integral_problem(rng, name, half_line=False):
 PSEL = ['none', 'some', 'all']
 
 
-def case_quad(ctx, rng, name, psel, a_obs, b_obs, layout, half_line=False):
+def case_quad(ctx, rng, name, psel, a_obs, b_obs, layout, half_line=False, weight=None):
     import scipy.integrate
     pe = PE
     npar, p, a, b, c = integral_problem(rng, name, half_line)
@@ -381,6 +385,11 @@ def case_quad(ctx, rng, name, psel, a_obs, b_obs, layout, half_line=False):
             mask[int(i)] = True
     if half_line:
         b_obs = False
+    wvar = None
+    if weight is not None:
+        wvar = float(rng.uniform(0.6, 3.0))
+        if a > b:
+            a, b = b, a
     ops = Operands(rng, ctx.tier, layout)
     pin = [ops.obs(v, max(abs(v), 0.3)) if m else v for v, m in zip(p, mask)]
     ain = ops.obs(a, 1.0) if a_obs else a
@@ -397,10 +406,20 @@ def case_quad(ctx, rng, name, psel, a_obs, b_obs, layout, half_line=False):
         kw = {'full_output': 1}
     elif r < 0.4:
         kw = {'limit': 80}
+    elif r < 0.55 and weight is None and not half_line:
+        lo, hi = min(av, bv), max(av, bv)
+        kw = {'points': [lo + 0.37 * (hi - lo), lo + 0.81 * (hi - lo)][:int(rng.integers(1, 3))]}
+    elif r < 0.65:
+        kw = {'epsabs': 1e-11, 'epsrel': 1e-11, 'limit': 60}
+    if weight is not None:
+        kw = dict(kw, weight=weight, wvar=wvar)
+        kw.pop('points', None)
     parg = pin if rng.random() < 0.7 else (np.array(pin, dtype=object) if any(mask) else np.array(pin))
     nobs = sum(mask) + int(a_obs) + int(b_obs)
-    ctx.cell('quad', name + ('_half_line' if half_line else ''), 'p_' + psel, 'a_obs' if a_obs else 'a_num', 'b_obs' if b_obs else 'b_num',
+    ctx.cell('quad', name + ('_half_line' if half_line else '') + ('_weight_' + weight if weight else ''), 'p_' + psel, 'a_obs' if a_obs else 'a_num', 'b_obs' if b_obs else 'b_num',
              layout if nobs else 'numbers')
+    for k_ in sorted(kw):
+        ctx.cell('quad_option', k_)
     got = pe.integrate.quad(func, parg, ain, bin_, **kw)
     what = '%s p=%r a=%r b=%r mask=%r a_obs=%r b_obs=%r layout=%s kw=%r' % (name, pv, av, bv, mask, a_obs, b_obs, layout, sorted(kw))
     direct = scipy.integrate.quad(lambda x: func(np.array(pv), x), av, bv, **kw)
@@ -417,7 +436,8 @@ def case_quad(ctx, rng, name, psel, a_obs, b_obs, layout, half_line=False):
         if len(direct) > 2:
             ctx.equal(sorted(got[2]), sorted(direct[2]), mech + ':infodict-differs-from-scipy', what)
             ctx.equal(got[2].get('neval'), direct[2].get('neval'), mech + ':infodict-differs-from-scipy', what)
-        ctx.close(got[0], integral(pv, av, bv, c), mech + ':value-differs-from-antiderivative', what, rtol=1e-9, scale=abs_integral(f, pv, av, bv, c))
+        exact0 = integral(pv, av, bv, c) if weight is None else ri.weighted_integral(name, pv, av, bv, c, weight, wvar)
+        ctx.close(got[0], exact0, mech + ':value-differs-from-antiderivative', what, rtol=1e-9, scale=abs_integral(f, pv, av, bv, c))
         ctx.nontrivial.add(digest('plain', name, pv, av, bv, sorted(kw)))
         return
     ctx.count('integrals_judged')
@@ -430,23 +450,67 @@ def case_quad(ctx, rng, name, psel, a_obs, b_obs, layout, half_line=False):
         return
     ctx.equal(got[1], direct[1], mech + ':abserr-differs-from-scipy', what)
     ins = [x for x in pin if is_obs(x)] + ([ain] if a_obs else []) + ([bin_] if b_obs else [])
-    grads = ri.gradient(name, pv, av, bv, c, mask, a_obs, b_obs)
+    if weight is None:
+        grads = ri.gradient(name, pv, av, bv, c, mask, a_obs, b_obs)
+    else:
+        grads = ri.weighted_gradient(name, pv, av, bv, c, mask, a_obs, b_obs, weight, wvar)
 
     def val(v):
         vv = list(v)
         pp = [vv.pop(0) if m else x for x, m in zip(pv, mask)]
         aa = vv.pop(0) if a_obs else av
         bb = vv.pop(0) if b_obs else bv
-        return integral(pp, aa, bb, c)
+        return integral(pp, aa, bb, c) if weight is None else ri.weighted_integral(name, pp, aa, bb, c, weight, wvar)
     ref, scale, snaps, rmeans = reference(ins, grads, val)
     iscale = abs_integral(f, pv, av, bv, c)
-    ok = compare_obs(ctx, res, ref, mech, scale=scale, rtol=1e-8, vtol=1e-9, what=what, value_scale=iscale)
+    t = ctx.trial()
+    ok = compare_obs(t, res, ref, mech, scale=scale, rtol=1e-8, vtol=1e-9, what=what, value_scale=iscale)
+    named = False
     if not ok:
-        diagnose_quad(ctx, res, ins, grads, val, sum(mask), a_obs, b_obs, mech, what)
+        hyp = {}
+        if weight is not None:
+            # hypotheses that name the cause: parameter terms / limit terms computed without the weight function
+            unw = ri.gradient(name, pv, av, bv, c, mask, a_obs, b_obs)
+            npo = sum(mask)
+            hyp['parameter-terms-ignore-the-weight-options'] = list(unw[:npo]) + list(grads[npo:])
+            hyp['limit-terms-ignore-the-weight-function'] = list(grads[:npo]) + list(unw[npo:])
+            hyp['parameter-and-limit-terms-ignore-the-weight-options'] = list(unw)
+        named = diagnose_quad(ctx, res, ins, grads, val, sum(mask), a_obs, b_obs, mech, what, extra=hyp)
+    if named:
+        ctx.evaluations += t.evaluations      # the named cause replaces the field-by-field records of the fluctuations
+        for v in t.violations:
+            if v['mechanism'].endswith(':value'):
+                ctx.violation(v['mechanism'], v['detail'])
+    else:
+        ctx.absorb(t)
     if int(a_obs) + int(b_obs) >= 1 or sum(mask) >= 2:
         ctx.nontrivial.add(digest('quad', name, pv, av, bv, mask, a_obs, b_obs, [sorted(s['chains']) + sorted(s['cov']) for s in snaps]))
-    ctx.sample({'call': 'quad', 'family': name, 'p': pv, 'a': av, 'b': bv, 'observable_parameters': mask, 'a_obs': a_obs, 'b_obs': b_obs,
+    ctx.sample({'call': 'quad', 'weight': weight, 'wvar': wvar, 'family': name, 'p': pv, 'a': av, 'b': bv, 'observable_parameters': mask, 'a_obs': a_obs, 'b_obs': b_obs,
                 'layout': layout, 'options': kw, 'value': res.value, 'exact': ref['value'], 'gradient': grads})
+
+
+def case_quad_other_weight(ctx, rng, which):
+    """weights other than cos / sin with an observable limit: the derivative with respect to the limit needs the weight
+    function; the only admissible outcome is a refusal (NotImplementedError)."""
+    pe = PE
+    npar, p, a, b, c = integral_problem(rng, 'poly')
+    if a > b:
+        a, b = b, a
+    ops = Operands(rng, ctx.tier, 'same')
+    ain = ops.obs(a, 1.0) if which in ('a', 'ab') else a
+    bin_ = ops.obs(b, 1.0) if which in ('b', 'ab') else b
+    weight, wvar = [('alg', (0.5, 0.3)), ('alg-loga', (0.2, 0.4)), ('cauchy', 0.5 * (a + b) + 0.1)][int(rng.integers(0, 3))]
+    ctx.cell('quad', 'poly_weight_' + weight, 'limits_' + which)
+    ctx.ev()
+    try:
+        got = pe.integrate.quad(lib_integrand('poly', c, npar), p, ain, bin_, weight=weight, wvar=wvar)
+    except NotImplementedError:
+        ctx.count('other_weight_with_observable_limit_refused')
+        ctx.nontrivial.add(digest('other-weight', weight, p, a, b, which))
+        return
+    ctx.violation('quad:limit-terms-ignore-the-weight-function', {'weight': weight, 'wvar': wvar, 'limits': which,
+                                                                   'note': 'returned a result although the limit term needs the weight function',
+                                                                   'result': repr(got[0])[:80]})
 
 
 def abs_integral(f, p, a, b, c):
@@ -458,8 +522,8 @@ def abs_integral(f, p, a, b, c):
     return float(np.mean([abs(f(p, float(x), c)) for x in xs]) * (hi - lo)) + 1e-300
 
 
-def diagnose_quad(ctx, res, ins, grads, val, npobs, a_obs, b_obs, mech, what):
-    hyps = {}
+def diagnose_quad(ctx, res, ins, grads, val, npobs, a_obs, b_obs, mech, what, extra=None):
+    hyps = dict(extra or {})
     k = npobs
     if a_obs:
         g = list(grads)
@@ -482,7 +546,8 @@ def diagnose_quad(ctx, res, ins, grads, val, npobs, a_obs, b_obs, mech, what):
         compare_obs(t, res, ref, mech, scale=scale, rtol=1e-8, vtol=1e-9, what=what)
         if not t.violations:
             ctx.violation(mech + ':' + tag, {'what': what})
-            return
+            return True
+    return False
 
 
 # ------------------------------------------------------------------------------------------
@@ -519,6 +584,14 @@ def plan(tier):
     for psel in PSEL:
         for a_obs in (0, 1):
             p.append(('quadinf:%s:%d' % (psel, a_obs), 6 * m))
+    for which in ('a', 'b', 'ab'):
+        p.append(('quadother:%s' % which, 3 * m))
+    for name in ('poly', 'exp'):
+        for weight in ('cos', 'sin'):
+            for psel in PSEL:
+                for a_obs in (0, 1):
+                    for b_obs in (0, 1):
+                        p.append(('quadw:%s:%s:%s:%d:%d' % (name, weight, psel, a_obs, b_obs), 4 * m))
     return p
 
 
@@ -528,6 +601,10 @@ def run_case(ctx, kind, idx, rng):
         case_root(ctx, rng, k[1], k[2])
     elif k[0] == 'quad':
         case_quad(ctx, rng, k[1], k[2], bool(int(k[3])), bool(int(k[4])), k[5])
+    elif k[0] == 'quadother':
+        case_quad_other_weight(ctx, rng, k[1])
+    elif k[0] == 'quadw':
+        case_quad(ctx, rng, k[1], k[3], bool(int(k[4])), bool(int(k[5])), str(rng.choice(['same', 'different', 'covariance'])), weight=k[2])
     elif k[0] == 'quadinf':
         case_quad(ctx, rng, 'exp', k[1], bool(int(k[2])), False, str(rng.choice(['same', 'different', 'covariance'])), half_line=True)
     else:
